@@ -115,14 +115,14 @@ def differential_evolution(
                 candidates = [j for j in candidates if j != base_idx]
 
             if len(candidates) < 2 * num_diffs:
-                # Fallback to rand/1 if not enough candidates
+                # Fallback to a single difference vector if not enough candidates
                 diff_indices = rng.sample([j for j in range(pop_size) if j != i], 2)
             else:
                 diff_indices = rng.sample(candidates, 2 * num_diffs)
 
             # Mutant vector
             mutant = base_vec[:]
-            for d in range(num_diffs):
+            for d in range(len(diff_indices) // 2):
                 r1, r2 = diff_indices[2 * d], diff_indices[2 * d + 1]
                 for j in range(n):
                     mutant[j] += mutation * (population[r1][j] - population[r2][j])
